@@ -1,5 +1,6 @@
 import PugModel.Tpl.Compile
 import PugProofs.C01.EvalScalar
+import PugProofs.C01.EndToEnd
 import PugModel.Pug.Spec
 /-!
 # C04 — escaped output never lets data-supplied markup through
@@ -138,7 +139,44 @@ theorem C04_code_escaped_scalar (ρ : SEnv) (e : SExpr) (s : String) (h : sEval 
   | S s => exact C04_print_escaped s st
   | str s => exact print_str_escaped s st
 
+open Pug.JS Pug.Props.C01S Pug.Driver in
+/-- **C04 (end to end, through the whole model of LoadTemplates + Render).** Page data: ANY JSON object whose values are strings,
+numbers or booleans (lower-initial keys, none called `global`). Template: the escaped buffered code `= e` for ANY expression of
+the scalar fragment built from those values by concatenation, conditionals, `||` / `&&` defaults, comparisons - any nesting -
+whose JavaScript value is a string `s`. Then conversion of the data, the transpiler, text merging, trim markers, the template
+parser and the executor together print exactly `escape s` - and by `C04_escape_safe` that text contains no `<`, `>`, `"`, `'`. -/
+theorem C04_render_escaped_end_to_end (o : Std.TreeMap.Raw String Lean.Json) (svs : SEnv) (hd : ScalarData o svs)
+    (hg : ∀ kv ∈ svs, kv.1 ≠ "global") (e : SExpr) (s : String) (inl : Bool)
+    (hw : WF { funcs := engineFuncs ++ [], parserFuncs := engineFuncs ++ [] ++ builtinNames } e) (ht : TopEsc e)
+    (hdepth : e.depth < 50000) (h : sEval svs e = some (.str s)) :
+    renderModel [.codeBuf e.toExpr true inl] (.obj o) [] false = okOut (pugHtmlEscape s) := by
+  have hc := compileDoc_buffered { funcs := engineFuncs ++ [], parserFuncs := engineFuncs ++ [] ++ builtinNames } e inl hw ht hdepth
+  have hag := agree_initState o svs hd hg
+  have hout := (initState_scalars o svs hd).2
+  have hwalk := C04_code_escaped_scalar svs e s h (initState (.obj o)) hag { defs := [] } 99999999 (by omega)
+  have hrun : walkList 100000000 { defs := [] } [TNode.print (tr e) true] (initState (.obj o)) =
+      .ok ((), { initState (.obj o) with out := (initState (.obj o)).out ++ pugHtmlEscape s }) := by
+    show walkList (99999999 + 1) _ _ _ = _
+    rw [walkList]
+    simp only [bind, StateT.bind, hwalk, Except.bind]
+    show walkList (99999998 + 1) _ [] _ = _
+    simp [walkList, pure, StateT.pure, Except.pure]
+  simp only [renderModel, hc, StateT.run, hrun, hout, String.empty_append]
+
 /-! non-vacuity -/
 example : escapeWith htmlEscape "<b a=\"1\">&'".toList = "&lt;b a=&#34;1&#34;&gt;&amp;&#39;".toList := by decide
+
+section EndToEndNonVacuity
+open Pug.JS Pug.Props.C01S Pug.Driver Lean
+private def o1 : Std.TreeMap.Raw String Json := ((∅ : Std.TreeMap.Raw String Json).insert "a" (.str "<b>")).insert "b" (.bool true)
+private def svs1 : SEnv := [("a", .str "<b>"), ("b", .bool true)]
+private def e1 : SExpr := .bin .add (.var "a") (.cond (.var "b") (.var "a") (.var "b"))
+example : ScalarData o1 svs1 := ⟨by decide, by decide⟩
+example : ∀ kv ∈ svs1, kv.1 ≠ "global" := by decide
+example : WF { funcs := engineFuncs ++ [], parserFuncs := engineFuncs ++ [] ++ builtinNames } e1 := by
+  simp [WF, e1]; decide
+example : TopEsc e1 := trivial
+example : sEval svs1 e1 = some (.str "<b><b>") := by decide
+end EndToEndNonVacuity
 
 end Pug.Props.C04
